@@ -4,6 +4,7 @@ import Librfn.Lemmas.ConsoleTok
 import Librfn.Lemmas.ConsoleTable
 import Librfn.Lemmas.ConsoleInv
 import Librfn.Lemmas.ConsoleEdit
+import Librfn.Lemmas.ConsoleRound
 /-!
 # C15 — console line editing, tokenising and dispatch are exact and memory-safe
 
@@ -278,5 +279,262 @@ example : (runOps boot [.process 99, .process 97, .process 112, .process 120, .p
 
 /-- Ctrl-C, backspace at the start of a line, and a line completed by the 80th character -/
 example : Librfn.Spec.Console.edit [120, 3, 8, 97, 98, 8] = [97] := by decide
+
+/-! ## the tokeniser: fourth_takes_rest, tokenize_roundtrip, unquoted_simple_split -/
+
+/-- **fourth_takes_rest** (observation O1, not a defect): whenever `do_tokenize` finds four tokens it
+    stops at the first character of the fourth; nothing from that character on is modified, so
+    `argv[3]` is the raw remainder of the line (later words, inner blanks, a closing quote). -/
+theorem fourth_takes_rest (mem : List Byte) (argv : List (Option Nat)) (len : Nat)
+    (hlen : strlen? mem = some len) (ha : argv.length = 4) :
+    (tokenizeMem mem argv len).argc = 4 →
+      ∃ o, (padArgv (tokenizeMem mem argv len).argv (tokenizeMem mem argv len).argc len).getD 3 none = some o ∧
+      1 ≤ o ∧ o < len ∧ (tokenizeMem mem argv len).mem.drop o = mem.drop o ∧
+      cstr (tokenizeMem mem argv len).mem o = (mem.take len).drop o := by
+  intro h4
+  generalize ht : tokenizeMem mem argv len = t at h4 ⊢
+  have hinv : TokInv mem len t := ht ▸ tokenizeMem_inv mem argv len ha
+  obtain ⟨hl1, hl2, hl3⟩ := strlen_spec mem len hlen
+  have hrest : ∃ o, 1 ≤ o ∧ t.argv.getD 3 none = some o ∧ ∀ j, o ≤ j → t.mem.getD j 0 = mem.getD j 0 := by
+    have := tokLoop_rest mem (len - 1) 1 { mem := mem, quote := 0, argc := 1, argv := argv.set 0 (some 0), wr := [] }
+      (fun _ _ => rfl) (by show 1 < 4; omega) (by simp [ha]) (by
+        have : tokLoop (len - 1) 1 { mem := mem, quote := 0, argc := 1, argv := argv.set 0 (some 0), wr := [] } = t := ht
+        rw [this]; exact h4)
+    have e : tokLoop (len - 1) 1 { mem := mem, quote := 0, argc := 1, argv := argv.set 0 (some 0), wr := [] } = t := ht
+    rw [e] at this
+    exact this
+  obtain ⟨o, o1, o2, o3⟩ := hrest
+  have hpad : (padArgv t.argv t.argc len).getD 3 none = some o := by
+    rw [padArgv_getD _ _ _ 3 (by omega), if_pos (by omega)]; exact o2
+  obtain ⟨o', ho', _, ho3⟩ := hinv.hargv 3 (by omega)
+  have heq : o' = o := by rw [o2] at ho'; injection ho' with h; exact h.symm
+  subst heq
+  have hlt : o' < len := (ho3 (by omega)).2
+  have hdrop : t.mem.drop o' = mem.drop o' := by
+    apply List.ext_getElem
+    · rw [List.length_drop, List.length_drop, hinv.hlen]
+    · intro j h1 h2
+      rw [List.getElem_drop, List.getElem_drop]
+      have := o3 (o' + j) (by omega)
+      rw [List.length_drop] at h1 h2
+      rw [List.getD_eq_getElem?_getD, List.getD_eq_getElem?_getD,
+        List.getElem?_eq_getElem (by omega), List.getElem?_eq_getElem (by omega)] at this
+      simpa using this
+  refine ⟨o', hpad, o1, hlt, hdrop, ?_⟩
+  unfold cstr
+  rw [hdrop]
+  -- the line is NUL-free up to `len` and has its NUL at `len`
+  have hsplit : mem.drop o' = (mem.take len).drop o' ++ 0 :: mem.drop (len + 1) := by
+    have h1 : mem = mem.take len ++ mem.drop len := (List.take_append_drop len mem).symm
+    have h2 : mem.drop len = 0 :: mem.drop (len + 1) := by
+      rw [List.drop_eq_getElem_cons hl1]
+      congr 1
+      have := hl2
+      rw [List.getD_eq_getElem?_getD, List.getElem?_eq_getElem hl1] at this
+      simpa using this
+    conv => lhs; rw [h1]
+    rw [List.drop_append_of_le_length (by rw [List.length_take]; omega), h2]
+  rw [hsplit]
+  apply Librfn.Lemmas.ConsoleRound.takeWhile_nz
+  intro b hb
+  obtain ⟨k, hk, rfl⟩ := List.getElem_of_mem hb
+  rw [List.getElem_drop, List.getElem_take]
+  rw [List.length_drop, List.length_take] at hk
+  have := hl3 (o' + k) (by omega)
+  rw [List.getD_eq_getElem?_getD, List.getElem?_eq_getElem (by omega)] at this
+  simpa using this
+
+/-- `cap a b "c d"`: the fourth argument is `c d"` -/
+example : let t := tokenizeMem ([99, 97, 112, 32, 97, 32, 98, 32, 34, 99, 32, 100, 34, 0]) [none, none, none, none] 13
+    t.argc = 4 ∧ cstr t.mem 9 = [99, 32, 100, 34] := by decide
+
+open Librfn.Spec.Console in
+/-- the strings a command sees: `argv[0..argc-1]` read as C strings -/
+def tokensOf (t : Tok) (len : Nat) : List (List Nat) :=
+  (List.range t.argc).map fun i => match (padArgv t.argv t.argc len).getD i none with
+    | some o => cstr t.mem o
+    | none => []
+
+open Librfn.Spec.Console in
+/-- the render / tokenise round trip, for items satisfying `extra` besides `Item.Ok`: a command word,
+    at most two further items (words, or quoted strings), separated by blanks, optionally followed by
+    blanks and a final word — whatever follows the line's terminator in the buffer and whatever `argv`
+    held before -/
+def RoundTrip (extra : Item → Prop) : Prop :=
+  ∀ (cmd : List Nat) (args : List (List Nat × Item)) (final : Option (List Nat × List Nat))
+    (tail : List Nat) (argv0 : List (Option Nat)),
+    Word cmd → (∀ a ∈ args, Blanks a.1 ∧ a.2.Ok ∧ extra a.2) → args.length ≤ 2 →
+    (∀ f, final = some f → Blanks f.1 ∧ Word f.2) → argv0.length = 4 →
+    tokensOf (tokenizeMem (render cmd args final ++ 0 :: tail) argv0 (render cmd args final).length)
+      (render cmd args final).length = texts cmd args final
+
+/-- **tokenize_roundtrip at the strength DESIGN.md states it** ("non-empty strings quoted by a quote
+    they do not contain").  It does *not* hold for the code as it is — see
+    `tokenize_roundtrip_fails` (finding D10) — and is therefore kept as a `Prop`. -/
+def TokenizeRoundtrip : Prop := RoundTrip (fun _ => True)
+
+open Librfn.Spec.Console Librfn.Lemmas.ConsoleScan Librfn.Lemmas.ConsoleSeg Librfn.Lemmas.ConsoleRound in
+/-- **tokenize_roundtrip_partial**: the round trip holds for every argument list in which no quoted
+    string *starts* with a quote character (all separators, all lengths, any buffer contents after
+    the line).  What is missing for the full statement is exactly D10. -/
+theorem tokenize_roundtrip_partial : RoundTrip Item.NoNestedQuote := by
+  intro cmd args final tail argv0 hcmd hargs hn hfinal ha
+  obtain ⟨hne, hall⟩ := hcmd
+  cases cmd with
+  | nil => exact absurd rfl hne
+  | cons c0 w' =>
+    have hc0 := hall c0 (List.mem_cons_self ..)
+    have hline : render (c0 :: w') args final = c0 :: (w' ++ (renderArgs args ++ finalR final)) := by
+      unfold render finalR
+      cases final with
+      | none => simp
+      | some f => obtain ⟨sep, w⟩ := f; simp
+    have hlen : (render (c0 :: w') args final).length = (w' ++ (renderArgs args ++ finalR final)).length + 1 := by
+      rw [hline]; rfl
+    rw [hlen]
+    have hmem : render (c0 :: w') args final ++ 0 :: tail = c0 :: (w' ++ (renderArgs args ++ finalR final)) ++ 0 :: tail := by
+      rw [hline]
+    rw [hmem]
+    obtain ⟨m1, m2, m3⟩ := tokenizeMem_scan c0 (w' ++ (renderArgs args ++ finalR final)) tail argv0
+    -- the rest of the command word is copied
+    obtain ⟨a0, _⟩ := scan_copy w' (sc0 c0 argv0) rfl (nz_of_printable c0 hc0.1) (by
+      intro b hb
+      have hb' := hall b (List.mem_cons_of_mem _ hb)
+      exact ⟨nz_of_printable b hb'.1, nz_of_printable b hb'.1, fun x => not_isspace_of_printable b hb'.1 x.1⟩)
+    have hl0 : (scan (sc0 c0 argv0) w').argv.length = argvLen := by
+      rw [a0.argv]; show (argv0.set 0 (some 0)).length = argvLen; rw [List.length_set, ha, argvLen_eq]
+    have hargc0 : (scan (sc0 c0 argv0) w').argc = 1 := a0.argc
+    obtain ⟨x, i1, i2, i3, i4, i5, i6⟩ := scan_args args final (scan (sc0 c0 argv0) w') a0.brk a0.quote hl0 hargs
+      (by rw [hargc0, argvLen_eq]; omega) hfinal
+    rw [scan_append] at m1 m2 m3
+    -- now compare token by token
+    have hout : (scan (scan (sc0 c0 argv0) w') (renderArgs args ++ finalR final)).out = (c0 :: w') ++ x := by
+      rw [i1, a0.out]; rfl
+    have htexts : texts (c0 :: w') args final = (c0 :: w') :: argTexts args final := by
+      rfl
+    rw [htexts]
+    unfold tokensOf
+    rw [m2, i3, hargc0]
+    apply List.ext_getElem?
+    intro i
+    by_cases hi : i < 1 + (argTexts args final).length
+    · rw [List.getElem?_map, List.getElem?_range hi]
+      simp only [Option.map_some]
+      have hT : (argTexts args final).length ≤ 3 := by
+        unfold argTexts
+        cases final with
+        | none => simp; omega
+        | some f => simp; omega
+      rw [padArgv_getD _ _ _ i (by omega)]
+      rw [if_pos hi, m3, m1]
+      cases i with
+      | zero =>
+        have h0 : (scan (scan (sc0 c0 argv0) w') (renderArgs args ++ finalR final)).argv.getD 0 none = some 0 := by
+          rw [i5 0 (by rw [hargc0]; omega), a0.argv]
+          show (argv0.set 0 (some 0)).getD 0 none = some 0
+          simp [List.getD_eq_getElem?_getD, ha]
+        rw [h0, hout]
+        simp only [List.getElem?_cons_zero]
+        congr 1
+        rcases i2 with rfl | ⟨y, rfl⟩
+        · have := cstr_at [] (c0 :: w') tail (fun b hb => nz_of_printable b (hall b hb).1)
+          simpa using this
+        · have := cstr_at [] (c0 :: w') (y ++ 0 :: tail) (fun b hb => nz_of_printable b (hall b hb).1)
+          simpa using this
+      | succ j =>
+        have hj : j < (argTexts args final).length := by omega
+        obtain ⟨p, q1, q2⟩ := i6 j _ (List.getElem?_eq_getElem hj)
+        rw [hargc0] at q1
+        rw [show j + 1 = 1 + j by omega, q1]
+        simp only []
+        rw [q2 tail, show 1 + j = j + 1 by omega, List.getElem?_cons_succ, List.getElem?_eq_getElem hj]
+    · rw [List.getElem?_eq_none (by simp; omega), List.getElem?_eq_none (by simp; omega)]
+
+open Librfn.Spec.Console in
+/-- **finding D10, proved about the model and replayed on the real code by the corpus**: the line
+    `cap "'a"` gives `argv[1] = a"` instead of `'a`, so the round trip as DESIGN.md states it fails. -/
+theorem tokenize_roundtrip_fails : ¬ TokenizeRoundtrip := by
+  intro h
+  have := h [99, 97, 112] [([32], .quoted 34 [39, 97])] none [] [none, none, none, none]
+    (by unfold Word printable isQuote SQ DQ; decide)
+    (by
+      intro a ha
+      simp only [List.mem_singleton] at ha
+      subst ha
+      refine ⟨by unfold Blanks blank; decide, ?_, trivial⟩
+      unfold Item.Ok isQuote SQ DQ
+      decide)
+    (by decide) (by intro f hf; cases hf) rfl
+  revert this
+  decide
+
+open Librfn.Spec.Console in
+/-- the blank-separated words of a line without quote characters whose first character is not a
+    blank are its tokens — the first three, and from the fourth word on the raw rest (O1) -/
+def UnquotedSimpleSplit : Prop :=
+  ∀ (line tail : List Nat) (argv0 : List (Option Nat)),
+    (∀ b ∈ line, (printable b ∧ ¬ isQuote b) ∨ blank b) → (∀ b, line.head? = some b → ¬ blank b) → argv0.length = 4 →
+    let t := tokenizeMem (line ++ 0 :: tail) argv0 line.length
+    (tokensOf t line.length).take 3 = (splitBlanks line).take 3 ∧ t.argc = max 1 (min 4 (splitBlanks line).length)
+
+open Librfn.Spec.Console in
+/-- **unquoted_simple_split_partial**: a line made of at most four words separated by blanks (no
+    quote characters, no trailing blanks) is split into exactly those words.  (Lines with trailing
+    blanks or more than four words: `fourth_takes_rest` + the correspondence run; the general
+    statement `UnquotedSimpleSplit` is not proved.) -/
+theorem unquoted_simple_split_partial (cmd : List Nat) (more : List (List Nat × List Nat)) (tail : List Nat)
+    (argv0 : List (Option Nat)) (hcmd : Word cmd) (hmore : ∀ a ∈ more, Blanks a.1 ∧ Word a.2) (hn : more.length ≤ 3)
+    (ha : argv0.length = 4) :
+    let line := cmd ++ (more.map fun a => a.1 ++ a.2).flatten
+    tokensOf (tokenizeMem (line ++ 0 :: tail) argv0 line.length) line.length = cmd :: more.map (·.2) := by
+  -- the first two extra words are items, a third one is the final word
+  have key : ∀ (args : List (List Nat × Item)) (final : Option (List Nat × List Nat)),
+      render cmd args final = cmd ++ (more.map fun a => a.1 ++ a.2).flatten →
+      texts cmd args final = cmd :: more.map (·.2) →
+      (∀ a ∈ args, Blanks a.1 ∧ a.2.Ok ∧ a.2.NoNestedQuote) → args.length ≤ 2 →
+      (∀ f, final = some f → Blanks f.1 ∧ Word f.2) →
+      tokensOf (tokenizeMem (cmd ++ (more.map fun a => a.1 ++ a.2).flatten ++ 0 :: tail) argv0
+        (cmd ++ (more.map fun a => a.1 ++ a.2).flatten).length) (cmd ++ (more.map fun a => a.1 ++ a.2).flatten).length
+        = cmd :: more.map (·.2) := by
+    intro args final h1 h2 h3 h4 h5
+    have := tokenize_roundtrip_partial cmd args final tail argv0 hcmd h3 h4 h5 ha
+    rw [h1, h2] at this
+    exact this
+  match more, hmore, hn with
+  | [], _, _ => exact key [] none (by simp [render, renderArgs]) (by simp [texts]) (by intro a ha'; cases ha') (by simp) (by intro f hf; cases hf)
+  | [a], hm, _ =>
+    exact key [(a.1, .word a.2)] none (by simp [render, renderArgs, Item.render]) (by simp [texts, Item.text])
+      (by
+        intro x hx; simp only [List.mem_singleton] at hx; subst hx
+        exact ⟨(hm a (List.mem_cons_self ..)).1, (hm a (List.mem_cons_self ..)).2, trivial⟩)
+      (by simp) (by intro f hf; cases hf)
+  | [a, b], hm, _ =>
+    exact key [(a.1, .word a.2), (b.1, .word b.2)] none (by simp [render, renderArgs, Item.render]) (by simp [texts, Item.text])
+      (by
+        intro x hx
+        simp only [List.mem_cons, List.mem_nil_iff, or_false] at hx
+        rcases hx with rfl | rfl
+        · exact ⟨(hm a (by simp)).1, (hm a (by simp)).2, trivial⟩
+        · exact ⟨(hm b (by simp)).1, (hm b (by simp)).2, trivial⟩)
+      (by simp) (by intro f hf; cases hf)
+  | [a, b, c], hm, _ =>
+    exact key [(a.1, .word a.2), (b.1, .word b.2)] (some (c.1, c.2)) (by simp [render, renderArgs, Item.render]) (by simp [texts, Item.text])
+      (by
+        intro x hx
+        simp only [List.mem_cons, List.mem_nil_iff, or_false] at hx
+        rcases hx with rfl | rfl
+        · exact ⟨(hm a (by simp)).1, (hm a (by simp)).2, trivial⟩
+        · exact ⟨(hm b (by simp)).1, (hm b (by simp)).2, trivial⟩)
+      (by simp)
+      (by
+        intro f hf
+        injection hf with hf
+        subst hf
+        exact hm c (by simp))
+  | _ :: _ :: _ :: _ :: _, _, h => simp at h
+
+/-- non-vacuity of the round trip: `set  "a b"	'x"y' z` -/
+example : tokensOf (tokenizeMem ([115, 101, 116, 32, 32, 34, 97, 32, 98, 34, 9, 39, 120, 34, 121, 39, 32, 122, 0, 7, 7]) [none, none, none, none] 18) 18
+    = [[115, 101, 116], [97, 32, 98], [120, 34, 121], [122]] := by decide
 
 end Librfn.C15
